@@ -661,7 +661,7 @@ class Connection:
                 if cell is None:
                     raise zpath.PathEnd('empty merge')
                 if it == ('col', None, 'filename') and table == 'Cache' and (isz(cell.cls) or isz(cell.num)) \
-                        and scls(cell) in (None, TEXT):
+                        and scls(cell) in (None, TEXT) and not getattr(self.db, 'realise_filenames', False):
                     outrow.append(SymStr(cell, self.db))
                 else:
                     outrow.append(self.out(cell))
